@@ -77,15 +77,20 @@ impl AuthenticationRequest {
         data: &[u8],
         parameter: impl Into<AuthenticationParameter>,
     ) -> Result<Self, TryFromSliceError> {
-        let (challenge, data) = data.split_at(32);
-        let (application, data) = data.split_at(32);
-        let (handle_len, data) = data.split_at(1);
-        let key_handle = data[..handle_len[0] as usize].to_vec();
+        // A range that is not there becomes an empty slice, which the array conversions reject.
+        let challenge = data.get(..32).unwrap_or_default().try_into()?;
+        let application = data.get(32..64).unwrap_or_default().try_into()?;
+        let handle_len: [u8; 1] = data.get(64..65).unwrap_or_default().try_into()?;
+        let key_handle = data.get(65..65 + handle_len[0] as usize);
+        if key_handle.is_none() {
+            // the key handle is shorter than its length byte says
+            let _: [u8; 1] = [].as_slice().try_into()?;
+        }
         Ok(Self {
             parameter: parameter.into(),
-            challenge: challenge.try_into()?,
-            application: application.try_into()?,
-            key_handle,
+            challenge,
+            application,
+            key_handle: key_handle.unwrap_or_default().to_vec(),
         })
     }
 }
